@@ -348,7 +348,7 @@ func (intr *treeInterpreter) flattenWithReflection(value interface{}) (interface
 	flattened := []interface{}{}
 	for i := 0; i < v.Len(); i++ {
 		element := v.Index(i).Interface()
-		if reflect.TypeOf(element).Kind() == reflect.Slice {
+		if isSliceType(element) {
 			// Then insert the contents of the element
 			// slice into the flattened slice,
 			// i.e flattened = append(flattened, mySlice...)
